@@ -118,7 +118,9 @@ def fromRaw (s : ColorSpec) (raw : Nat) : Nat :=
   | .gray => raw
   | .rgb | .bgr => raw &&& s.rgbMask
 
-/-- `Raw::from(c).into_inner()` -/
+/-- `Raw::from(c).into_inner()`. `BinaryColor`: `RawU1::new(color.map_color(0, 1))`; that the literals
+`0`, `1` written here are the ones in the source today is `C12.binary_raw_values` (against the
+regenerated `binOffRaw` / `binOnRaw`; this file cannot import the generated table, which imports it). -/
 def toRaw (s : ColorSpec) (c : Nat) : Nat :=
   match s.kind with
   | .binary => s.rawNew (if c = 1 then 1 else 0)
